@@ -120,7 +120,7 @@ def hostile_start_instances(env, cfg, td, B, seed):
 def starts_case(ctx, case):
     cfg, B, seed = case["cfg"], case["B"], case["s"]
     name = cfg["env"]
-    if name in ("flp", "mcp"):
+    if name in ("flp", "mcp", "smtwtp"):
         env = envzoo.make_other(cfg)
         torch.manual_seed(seed)
         td_in = env.generator(batch_size=[B])
